@@ -3,7 +3,7 @@
    strings alone).  Scope predicates wf_* are what the parser guarantees (checked on every run
    by the code leg): a double-quoted literal does not end inside an escape; the operand of
    ++/-- and the left operand of an assignment is one literal word. *)
-From Verif Require Import Base.Str Syntax.Simplify Proofs.SimplifyProofs.
+From Verif Require Import Base.Str Syntax.Simplify Proofs.SimplifyProofs KF.C04KF.
 
 (* arithmetic: the simplified expression has the same value AND leaves the same variable
    updates, for every integer environment; itoa/atoi are the shell's decimal conversions *)
@@ -108,3 +108,10 @@ Proof. vm_compute. repeat split. Qed.
 Example C04_subshell_example :
   simplify_cmd (CSub [St true (CSub [St true (CSub [St true (COther 1)])])]) = Some (CSub [St true (COther 1)], true).
 Proof. vm_compute. reflexivity. Qed.
+
+(* the class predicate of KF-C04-3 (Coq twin of the harness predicate, compared with it on every
+   exported arithmetic root by the code leg) contains the pinned witness $((++c, $c)) *)
+Example C04_kf3_witness_in_class :
+  kf_dollar_param_after_side_effect
+    (ABin 100 (AUn 0 false (AWord [WLit [99]])) (AWord [WParam true 0 [99]])) = true.
+Proof. exact (proj1 kf3_witness). Qed.
